@@ -329,6 +329,58 @@ Proof.
       intros Hf. rewrite (Hself f Hin) in Hf. discriminate.
 Qed.
 
+(** The primary-block item bound into the AAD (CRC recomputed) determines the
+    primary block's fields: nothing of the primary block is lost by taking
+    [bytes(blk)] after [update_crc]. *)
+Lemma pri_crct_app p l : (3 <= length p)%nat -> pri_crct (p ++ l) = pri_crct p.
+Proof. intros H. unfold pri_crct. rewrite nth_error_app1 by lia. reflexivity. Qed.
+
+Theorem primary_item_inj p p' :
+  (3 <= length p)%nat -> (3 <= length p')%nat -> primary_item p = primary_item p' -> p = p'.
+Proof.
+  intros L L' E. unfold primary_item in E.
+  destruct (pri_crct p) as [|c] eqn:C; destruct (pri_crct p') as [|c'] eqn:C'.
+  - injection E as E. exact E.
+  - destruct c' as [[]|[]|]; injection E as E; try exact E;
+      rewrite E, pri_crct_app in C by exact L'; congruence.
+  - destruct c as [[]|[]|]; injection E as E; try exact E;
+      rewrite <- E, pri_crct_app in C' by exact L; congruence.
+  - destruct c as [[]|[]|], c' as [[]|[]|]; injection E as E; try exact E;
+      try (apply app_inj_tail in E as [E _]; exact E);
+      try (rewrite E, pri_crct_app in C by exact L'; congruence);
+      try (rewrite <- E, pri_crct_app in C' by exact L; congruence);
+      try (apply app_inj_tail in E as [E _]; subst; congruence).
+Qed.
+
+(** boolean form of the well-formedness premise *)
+Definition wf_ctxb (c : ctx_t) : bool :=
+  wfb (CBstr (cv_context c)) && wfb (CBstr (cv_protected c)) && forallb wfb (cov_items c) &&
+  wfb (CBstr (encode_seq (cov_items c))).
+
+Lemma wf_ctxb_ok c : wf_ctxb c = true -> wf_ctx c.
+Proof.
+  unfold wf_ctxb, wf_ctx, okbytes. intros H.
+  apply andb_true_iff in H as [H H4]. apply andb_true_iff in H as [H H3]. apply andb_true_iff in H as [H1 H2].
+  split; [apply (proj1 (wfb_spec _) H1)|]. split; [apply (proj1 (wfb_spec _) H2)|].
+  split; [|apply (proj1 (wfb_spec _) H4)].
+  apply Forall_forall. intros x Hx. apply wfb_spec. rewrite forallb_forall in H3. apply H3, Hx.
+Qed.
+
+Definition wf_opb (o : secop) : bool :=
+  match covered o with Some x => wf_ctxb (fst x) && wfb (CBstr (snd x)) | None => true end.
+
+Lemma wf_opb_ok o : wf_opb o = true -> wf_op o.
+Proof.
+  unfold wf_opb, wf_op. destruct (covered o) as [x|]; [|trivial]. intros H.
+  apply andb_true_iff in H as [H1 H2]. split; [apply wf_ctxb_ok, H1 | apply wfb_spec, H2].
+Qed.
+
+Definition wf_op_ctxb (o : secop) : bool :=
+  match covered_ctx o with Some c => wf_ctxb c | None => true end.
+
+Lemma wf_op_ctxb_ok o : wf_op_ctxb o = true -> wf_op_ctx o.
+Proof. unfold wf_op_ctxb, wf_op_ctx. destruct (covered_ctx o); [apply wf_ctxb_ok|trivial]. Qed.
+
 (** * Codec round trips used by the completeness theorems *)
 
 Lemma all_some_cons {A} (x : option A) l r :
@@ -386,23 +438,25 @@ Lemma results_of_items rss : results_of (CArr (map (fun rs => CArr (map pair_ite
 Proof. cbn [results_of]. apply (all_some_map_id (fun rs => CArr (map pair_item rs)) pairs_of). exact pairs_of_items. Qed.
 
 Lemma asb_of_items_items a :
+  eid_norm (a_source a) = a_source a ->
   (N.testbit (a_flags a) 0 = false -> a_params a = []) -> asb_of_items (asb_items a) = Some a.
 Proof.
-  destruct a as [ts cid fl src ps rss]. cbn [a_flags a_params]. intros H.
+  destruct a as [ts cid fl src ps rss]. cbn [a_flags a_params a_source]. intros Hn H.
   unfold asb_items. cbn [a_targets a_ctxid a_flags a_source a_params a_results app asb_of_items].
   unfold targets_of. rewrite (all_some_map_id CUint uint_of ts uint_of_CUint).
   destruct (N.testbit fl 0) eqn:F; cbn [app].
-  - rewrite pairs_of_items, results_of_items. reflexivity.
-  - rewrite results_of_items, (H eq_refl). reflexivity.
+  - rewrite pairs_of_items, results_of_items, Hn. reflexivity.
+  - rewrite results_of_items, (H eq_refl), Hn. reflexivity.
 Qed.
 
 Theorem asb_dec_enc a :
   Forall wf (asb_items a) -> Forall (fun v => (depth v <= asb_fuel)%nat) (asb_items a) ->
+  eid_norm (a_source a) = a_source a ->
   (N.testbit (a_flags a) 0 = false -> a_params a = []) ->
   asb_dec (asb_enc a) = Some a.
 Proof.
-  intros W D H. unfold asb_dec, asb_enc. rewrite decode_seq_encode_seq by assumption.
-  apply asb_of_items_items, H.
+  intros W D Hn H. unfold asb_dec, asb_enc. rewrite decode_seq_encode_seq by assumption.
+  apply asb_of_items_items; assumption.
 Qed.
 
 (** * Block lookup under the bundle updates *)
@@ -1053,10 +1107,7 @@ Module Ex.
     end.
   Proof.
     cbn [find_block b0 b_blocks find cb_num N.eqb Pos.eqb]. split; [|vm_compute; discriminate].
-    unfold wf_op. vm_compute covered. unfold wf_cov, wf_ctx, okbytes. cbn [fst snd].
-    repeat split; try (apply wfb_spec; vm_compute; reflexivity).
-    apply Forall_forall. intros x Hx. apply wfb_spec.
-    revert x Hx. apply Forall_forall. vm_compute. repeat constructor.
+    apply wf_opb_ok. vm_compute. reflexivity.
   Qed.
 
   (** *** confidentiality, direct key 9, COSE_Encrypt0, including the empty plaintext *)
